@@ -34,7 +34,7 @@ TIERS = {
 }
 REQUIRED_PROBES = {
     "quick": ["case_variant_hit", "failed_op_atomic", "partial_update_atomic", "adopted_derived",
-              "bytes_key", "special_casefold_key", "canonical_head_and_tail"],
+              "bytes_key", "special_casefold_key", "canonical_head_and_tail", "eq_with_none_value"],
 }
 REQUIRED_PROBES["thorough"] = REQUIRED_PROBES["quick"]
 
@@ -137,7 +137,7 @@ def generate(rng, cfg):
             a["k"] = _pick_key(rng, model)
         elif op in ("setitem", "setdefault"):
             a["k"] = _pick_key(rng, model, rng.random() < 0.45)
-            a["v"] = val
+            a["v"] = None if rng.random() < 0.1 else val     # None is a value like any other
         elif op in ("get_default", "pop_default"):
             a["k"] = _pick_key(rng, model, rng.random() < 0.4)
             a["v"] = val
@@ -161,7 +161,7 @@ def generate(rng, cfg):
             a["v"] = val
             a["adopt"] = rng.random() < 0.3
         elif op == "eq":
-            a["other"] = rng.choice(["upper_dict", "same_anycase", "same_anycase", "differs", "other_class"])
+            a["other"] = rng.choice(["upper_dict", "same_anycase", "same_anycase", "differs", "other_class", "renamed"])
             a["spell"] = rng.randrange(1 << 30)
         step = [0, op, a]
         trace.append(step)
@@ -553,6 +553,18 @@ def _check_eq(res, stepno, d, model, cls, clsname, a):
         oc = Parameters if cls is CaselessDict else CaselessDict
         other = oc([(key_py(g.choice(NAMES.get(K, [["s", K]]))), v) for K, v in model.items()])
         want = True
+    elif kind == "renamed":
+        # same size, same values, one name replaced by a name that is not there
+        m2 = dict(model)
+        if not m2:
+            m2["EXTRA"] = None
+        else:
+            K = g.choice(sorted(m2))
+            m2["ZZ-RENAMED"] = m2.pop(K)
+        other = dict(m2) if (not is_comp and g.random() < 0.5) else cls(m2)
+        want = False
+        if any(v is None for v in model.values()):
+            res.probe("eq_with_none_value")
     elif kind == "upper_dict":
         other = dict(model)
         want = True
